@@ -23,6 +23,8 @@ package parser
 //@ ensures integer: a.Integer != nil ==> err == nil && res is biscuit.Integer && res.(biscuit.Integer) == *a.Integer
 //@ ensures str: a.Integer == nil && a.String != nil ==> err == nil && res is biscuit.String && res.(biscuit.String) == *a.String
 //@ ensures variable: a.Integer == nil && a.String == nil && a.Variable != nil ==> err == nil && res is biscuit.Variable && res.(biscuit.Variable) == *a.Variable
+//@ ensures date[C14]: a.Integer == nil && a.String == nil && a.Variable == nil && a.Date != nil ==> (err == nil) == timeParses("2006-01-02T15:04:05Z07:00", *a.Date) && (err == nil ==> res is biscuit.Date)
+//@ ensures bytes[C14]: a.Integer == nil && a.String == nil && a.Variable == nil && a.Date == nil && a.Bytes != nil && err == nil ==> res is biscuit.Bytes
 //@ ensures boolean: a.Integer == nil && a.String == nil && a.Variable == nil && a.Date == nil && a.Bytes == nil && a.Bool != nil ==> err == nil && res is biscuit.Bool && res.(biscuit.Bool) == *a.Bool
 //@ ensures set: a.Integer == nil && a.String == nil && a.Variable == nil && a.Date == nil && a.Bytes == nil && a.Bool == nil && a.Set != nil && err == nil ==> res is biscuit.Set && len(res.(biscuit.Set)) == len(a.Set) && (forall k int :: { res.(biscuit.Set)[k] } 0 <= k && k < len(a.Set) ==> res.(biscuit.Set)[k] != nil && !(res.(biscuit.Set)[k] is biscuit.Variable))
 //@ ensures parameter_bound: a.Integer == nil && a.String == nil && a.Variable == nil && a.Date == nil && a.Bytes == nil && a.Bool == nil && a.Set == nil && a.Parameter != nil && has(parameters, *a.Parameter) && parameters[*a.Parameter] != nil ==> err == nil && res == parameters[*a.Parameter]
